@@ -108,6 +108,43 @@ func lastAttr(t Tok, space, local string) (string, bool) {
 	return v, ok
 }
 
+// streamErrorIn: script is white space / one leading XML declaration followed by
+// one complete, well-formed stream error element; its condition (the last child
+// of the stream error name space that is not <text/>).
+func streamErrorIn(script []byte) (cond string, ok bool) {
+	toks, offs := tokenize(script)
+	first := -1
+	for i, t := range toks {
+		if t.K == "start" {
+			first = i
+			break
+		}
+		switch {
+		case t.K == "procinst" && t.Data == "xml" && i == 0:
+		case t.K == "char" && strings.Trim(t.Data, " \t\r\n") == "":
+		default:
+			return "", false
+		}
+	}
+	if first < 0 || toks[first].Space != nsStream || toks[first].Local != "error" {
+		return "", false
+	}
+	rest := script
+	if first > 0 {
+		rest = script[offs[first-1]:]
+	}
+	nodes, pok := parseNodes(rest, "")
+	if !pok || len(nodes) == 0 || nodes[0].Text != nil {
+		return "", false
+	}
+	for _, k := range nodes[0].Kids {
+		if k.Text == nil && k.Space == nsSErr && k.Local != "text" {
+			cond = k.Local
+		}
+	}
+	return cond, true
+}
+
 func (x *runner) runExpect(c expectCase) {
 	script := hx.UnHex(c.Script)
 	c.Text = string(script)
